@@ -6,6 +6,9 @@ import (
 	"strings"
 	"time"
 
+	mqtt "github.com/mochi-mqtt/server/v2"
+	"github.com/mochi-mqtt/server/v2/packets"
+
 	"verif/explore"
 	"verif/ref"
 	"verif/world"
@@ -301,18 +304,94 @@ func v5orv4(id string, ver byte, clean bool, exp uint32) ref.Packet {
 // decoded strictly, nothing may follow the DISCONNECT, an MQTT 5 connection must have got
 // DISCONNECT 0x8E, and the connection must be closed. The new connection must hold a
 // CONNACK whose Session Present is 1 (Clean Start 0) / 0 (Clean Start 1).
+//
+// Variant ",early" (e.g. "pubB+takeA,early"): the second connection of a is accepted before b
+// connects (its handler waits for the CONNECT bytes, which takeA sends), so that its threads
+// are older than b's and the default schedule attaches the new connection BEFORE b's publish
+// is processed; one deviation then places the whole publish anywhere inside the attach
+// (thread ids only fix the default order, not the reachable set).
+//
+// Oracle for the RESUMED session (Clean Start 0 takeover answered with Session Present 1;
+// client a never acknowledges anything during the explored phase), "a resumed session keeps
+// every subscription and unacknowledged message" (MQTT 5 §4.1, [MQTT-4.4.0-1]). After the
+// explored phase, deterministically: the new connection is dropped, a reconnects once more
+// with Clean Start 0 (third connection), acknowledges what it got there, and b publishes m3.
+//   - every QoS 1 message b published to x and the broker acknowledged to b (m2 of pubB) must
+//     have been transmitted to a at least once: on the old connection before its DISCONNECT,
+//     on the new connection, or at the latest on the third connection;
+//   - m1 (transmitted on the old connection during setup, never acknowledged) must be
+//     retransmitted on the new or at the latest on the third connection;
+//   - the third CONNACK must report Session Present 1 and m3 must be delivered there.
+// A lost concurrent publish is classified by WHEN the broker started to process it (hook
+// event OnPacketRead of b's PUBLISH) relative to the CONNACK of the new connection (hook
+// event OnPacketSent): "published-after-connack" = the CONNECT was already answered, the
+// resumed session is established for the outside world; "published-during-takeover" = the
+// publish and the attach overlapped before the CONNACK.
 
-var c14RaceScenarios = []string{"pubB+takeA", "pubB0+takeA", "pubB+takeAc", "pubB+pubB0+takeA", "pingA+pubB+takeA"}
+var c14RaceScenarios = []string{"pubB+takeA,early", "pubB+takeA", "pubB0+takeA", "pubB+takeAc", "pubB+pubB0+takeA", "pingA+pubB+takeA"}
+
+// c14RaceThorough: further scenarios of the thorough tier.
+var c14RaceThorough = []string{"pubB+pubB0+takeA,early", "pingA+pubB+takeA,early", "pubB+takeAc,early"}
+
+// c14EarlySetup is concSetup with a's second connection accepted before b connects.
+func c14EarlySetup(prefix []int, cfg world.Config) (*concEnv, *world.Client) {
+	w := world.New(prefix, cfg)
+	e := &concEnv{W: w}
+	w.Serve()
+	w.Run()
+	e.A = e.dial(v5connect("a", false, 2, 60))
+	w.Run()
+	a2 := e.add(&world.Client{W: w, C: w.Dial(), Ver: 5, ID: "a"})
+	w.Run()
+	e.B = e.dial(world.ConnectPacket("b", 4, true))
+	w.Run()
+	e.A.Do(sub(1, "x", 1))
+	e.B.Do(pub("x", "m1", 1, 1))
+	for _, c := range e.Clients {
+		c.Poll()
+	}
+	return e, a2
+}
 
 func c14Race(arg string) explore.RunFn {
-	acts := splitActs(arg)
+	parts := strings.Split(arg, ",")
+	acts := splitActs(parts[0])
+	early := false
+	for _, o := range parts[1:] {
+		early = early || o == "early"
+	}
 	clean := strings.Contains(arg, "takeAc")
+	qos1 := false // b publishes m2 at QoS 1 (packet id 2) concurrently
+	for _, a := range acts {
+		qos1 = qos1 || a == "pubB"
+	}
 	return func(prefix []int) explore.Outcome {
-		e := concSetup(prefix, world.Config{})
+		cfg := world.Config{Hook: func(rh *world.RecHook) {
+			// pass-through: marks the moment the broker starts to process a packet
+			rh.PacketRead = func(cl *mqtt.Client, pk packets.Packet) (packets.Packet, error) {
+				rh.W.Events = append(rh.W.Events, world.HookEvent{Name: "OnPacketRead", Client: cl.ID, Topic: pk.TopicName, Tag: string(pk.Payload), PID: pk.PacketID, Type: pk.FixedHeader.Type, ClientPtr: cl})
+				return pk, nil
+			}
+		}}
+		var e *concEnv
+		var a2 *world.Client
+		if early {
+			e, a2 = c14EarlySetup(prefix, cfg)
+		} else {
+			e = concSetup(prefix, cfg)
+		}
 		w := e.W
 		defer w.End()
+		evStart := len(w.Events)
 		for _, a := range acts {
+			if early && (a == "takeA" || a == "takeAc") {
+				a2.Send(v5connect("a", a == "takeAc", 2, 60))
+				continue
+			}
 			concActions[a](e)
+		}
+		if a2 == nil {
+			a2 = e.Clients[len(e.Clients)-1]
 		}
 		w.Explore(true)
 		w.Run()
@@ -320,7 +399,7 @@ func c14Race(arg string) explore.RunFn {
 		out := explore.Outcome{Points: w.X.Points, Divergence: w.X.Divergence(), Steps: w.X.Steps(), StepLog: w.X.StepLog, Counters: map[string]int{}}
 		out.Viol = runtimeViolations(w)
 		old := e.A
-		nc := e.Clients[len(e.Clients)-1]
+		nc := a2
 		nc.Poll()
 		pks, _, rest, err := ref.DecodeStream(old.C.Out, 5)
 		di := -1
@@ -362,8 +441,120 @@ func c14Race(arg string) explore.RunFn {
 			out.Viol = append(out.Viol, explore.Violation{Key: fmt.Sprintf("c14:session-present:%v-want-%v:takeover-race", nc.Recv[0].SessionPresent, !clean), Msg: fmt.Sprintf("takeover with Clean Start %v of a live persistent session answered Session Present=%v", clean, nc.Recv[0].SessionPresent)})
 		}
 		out.Obs = fmt.Sprintf("old=%v after=%v | new=%v", pks, after, nc.Recv)
+		resumed := !clean && len(nc.Recv) > 0 && nc.Recv[0].Type == ref.CONNACK && nc.Recv[0].ReasonCode == 0 && nc.Recv[0].SessionPresent
+		if resumed && err == nil && c14OnlyKnownTakeoverKeys(out.Viol) {
+			out.Viol = append(out.Viol, c14ResumedOracle(e, old, nc, pks, di, qos1, evStart, &out)...)
+		}
 		return out
 	}
+}
+
+// c14OnlyKnownTakeoverKeys: the resumed-session oracle runs when the takeover itself was in order
+// or showed only the packet-after-disconnect shapes (they do not disturb the session's content).
+func c14OnlyKnownTakeoverKeys(vs []explore.Violation) bool {
+	for _, v := range vs {
+		if !strings.HasPrefix(v.Key, "c14:takeover:packet-after-disconnect:") {
+			return false
+		}
+	}
+	return true
+}
+
+// c14ResumedOracle: deterministic epilogue and the oracle for the resumed session (see above).
+func c14ResumedOracle(e *concEnv, old, nc *world.Client, oldPks []ref.Packet, di int, qos1 bool, evStart int, out *explore.Outcome) (viol []explore.Violation) {
+	w := e.W
+	add := func(key, f string, a ...any) {
+		viol = append(viol, explore.Violation{Key: key, Msg: fmt.Sprintf(f, a...)})
+	}
+	// where was a QoS 1 PUBLISH with this payload transmitted to a
+	if di < 0 {
+		di = len(oldPks)
+	}
+	where := func(tag string, third *world.Client) (at []string) {
+		has := func(pks []ref.Packet) bool {
+			for _, p := range pks {
+				if p.Type == ref.PUBLISH && p.Qos == 1 && string(p.Payload) == tag {
+					return true
+				}
+			}
+			return false
+		}
+		if has(oldPks[:di]) {
+			at = append(at, "old")
+		}
+		if has(nc.Recv) {
+			at = append(at, "new")
+		}
+		if third != nil && has(third.Recv) {
+			at = append(at, "third")
+		}
+		return
+	}
+	e.B.Poll()
+	acked := false // the broker acknowledged m2 (QoS 1, packet id 2) to b
+	for _, p := range e.B.Recv {
+		if p.Type == ref.PUBACK && p.PacketID == 2 {
+			acked = true
+		}
+	}
+	// the explored phase is over: drop the new connection, resume once more
+	nc.Drop()
+	a3 := e.dial(v5connect("a", false, 2, 60))
+	w.Run()
+	a3.Poll()
+	out.Obs += fmt.Sprintf(" | third=%v", a3.Recv)
+	if len(a3.Recv) == 0 || a3.Recv[0].Type != ref.CONNACK || a3.Recv[0].ReasonCode != 0 {
+		add("c14:reconnect-after-takeover-race:not-accepted", "third connection of a got %v", a3.Recv)
+		return
+	}
+	if !a3.Recv[0].SessionPresent {
+		add("c14:session-present:false-want-true:reconnect-after-takeover-race", "the session was resumed by the takeover (Session Present 1, expiry 60 s, no time passed) but the next CONNECT with Clean Start 0 got Session Present 0: %v", a3.Recv)
+	}
+	if got := where("m1", a3); !(len(got) > 1 || len(got) == 1 && got[0] != "old") {
+		add("c14:resumed-session-lost-message:unacknowledged-before-takeover", "m1 was sent on the old connection and never acknowledged; the resumed session did not retransmit it (seen on %v): new=%v third=%v", got, nc.Recv, a3.Recv)
+	}
+	if qos1 && acked {
+		out.Counters["resumed_session_with_concurrent_qos1_publish"]++
+		got := where("m2", a3)
+		// when did the broker start to process b's PUBLISH relative to the new connection's CONNACK
+		iRead, iAck := -1, -1
+		for i := evStart; i < len(w.Events); i++ {
+			ev := w.Events[i]
+			if ev.Name == "OnPacketRead" && ev.Client == "b" && ev.Type == ref.PUBLISH && ev.PID == 2 && iRead < 0 {
+				iRead = i
+			}
+			if ev.Name == "OnPacketSent" && ev.Client == "a" && ev.Type == ref.CONNACK && iAck < 0 {
+				iAck = i
+			}
+		}
+		when := "published-during-takeover"
+		switch {
+		case iRead < 0 || iAck < 0:
+			when = "unclassified"
+		case iRead > iAck:
+			when = "published-after-connack"
+		}
+		out.Counters["concurrent_publish_"+when]++
+		if len(got) == 0 {
+			add("c14:resumed-session-lost-message:"+when, "b's QoS 1 message m2 was acknowledged to b and a's session was resumed (Session Present 1), but m2 was never transmitted to a: not on the old connection before its DISCONNECT, not on the new connection, not after one more reconnect with Clean Start 0 (%s: OnPacketRead of the PUBLISH is event %d, OnPacketSent of the new CONNACK is event %d): new=%v third=%v", when, iRead, iAck, nc.Recv, a3.Recv)
+		} else {
+			out.Counters["concurrent_publish_first_seen_on_"+got[0]]++
+		}
+	}
+	// the subscription: acknowledge everything, then one more message
+	for _, p := range a3.Recv {
+		if p.Type == ref.PUBLISH && p.Qos == 1 {
+			a3.Send(ref.Packet{Type: ref.PUBACK, PacketID: p.PacketID})
+		}
+	}
+	w.Run()
+	a3.Poll()
+	e.B.Do(pub("x", "m3", 1, 3))
+	a3.Poll()
+	if got := where("m3", a3); len(got) == 0 {
+		add("c14:subscription-lost:after-takeover-race", "the resumed session lost its subscription to x: m3 not delivered on the third connection: %v", a3.Recv)
+	}
+	return
 }
 
 func init() {
@@ -396,12 +587,21 @@ func init() {
 				c.Rep.Count(ck, n)
 			}
 		}
-		for _, s := range c14RaceScenarios {
+		scen := c14RaceScenarios
+		if !c.Quick() {
+			scen = append(append([]string{}, scen...), c14RaceThorough...)
+		}
+		for _, s := range scen {
 			if c.Expired() {
 				c.Rep.Capped("race " + s + " not started (deadline)")
 				continue
 			}
-			_, last := explore.IterateDFS(c, "c14race", s, bounds, perBudget(racePer))
+			bs, bud := bounds, racePer
+			if c.Quick() && strings.HasSuffix(s, ",early") {
+				// quick: the early variant up to one deviation, with room to complete that bound on a busy machine
+				bs, bud = bounds[:2], 20*time.Second
+			}
+			_, last := explore.IterateDFS(c, "c14race", s, bs, perBudget(bud))
 			if last != nil {
 				for ck, n := range last.Counters {
 					c.Rep.Count("race_"+ck, n)
